@@ -189,3 +189,27 @@ V("c06-new-pinned-class", "C06", "R06.1", "dask_array/_expr.py",
   None, "\n\nclass Named(ArrayExpr):\n    _parameters = [\"array\", \"name\"]\n\n    @functools.cached_property\n    def _name(self):\n        return self.operand(\"name\")\n\n    @functools.cached_property\n    def chunks(self):\n        return self.array.chunks\n\n    def _layer(self):\n        return {}\n", expect="Named")
 V("c06-twin-tokenizer-reordered", "C06", "-", "dask_array/reductions/_reduction.py",
   "                self.func, self.array, self.split_every, self.keepdims, self.dtype\n", "                self.func, self.array, self.keepdims, self.split_every, self.dtype\n", twin=True)
+
+# ---------------------------------------------------------------------------- C10
+V("c10-setitem-copy-deleted", "C10", "R10.1", "dask_array/slicing/_utils.py",
+  "    x = np.asarray(x) if isinstance(x, np.generic) else x.copy()\n", "    x = np.asarray(x)\n", expect="setitem")
+V("c10-setitem-copy-conditional", "C10", "R10.1", "dask_array/slicing/_utils.py",
+  "    x = np.asarray(x) if isinstance(x, np.generic) else x.copy()\n", "    if isinstance(x, np.generic):\n        x = np.asarray(x)\n    elif not x.flags.owndata:\n        x = x.copy()\n", expect="setitem")
+V("c10-reduce-block-no-copy", "C10", "R10.1", "dask_array/reductions/_reduction.py",
+  "        out = np.array(block[tuple(index)], dtype=out_dtype, copy=True)", "        out = np.array(block[tuple(index)], dtype=out_dtype, copy=False)", expect="sliding_window_reduce_block")
+V("c10-enforce-dtype-writes-arg", "C10", "R10.1", "dask_array/_core_utils.py",
+  "    dtype = kwargs.pop(\"enforce_dtype\")\n    function = kwargs.pop(\"enforce_dtype_function\")\n", "    dtype = kwargs.pop(\"enforce_dtype\")\n    function = kwargs.pop(\"enforce_dtype_function\")\n    if args and hasattr(args[0], \"dtype\") and args[0].dtype == dtype:\n        np.copyto(args[0], function(*args, **kwargs), casting=\"unsafe\")\n        return args[0]\n", expect="_enforce_dtype")
+V("c10-kernel-global-counter", "C10", "R10.2", "dask_array/_chunk.py",
+  None, "\n\n_CALLS = {}\n", expect="", twin=True)
+V("c10-from-array-no-copy", "C10", "R10.3", "dask_array/core/_conversion.py",
+  "    if is_arraylike(x) and hasattr(x, \"copy\"):\n        x = x.copy()\n", "", expect="from_array")
+V("c10-from-array-copy-only-small", "C10", "R10.3", "dask_array/core/_conversion.py",
+  "    if is_arraylike(x) and hasattr(x, \"copy\"):\n        x = x.copy()\n", "    if is_arraylike(x) and hasattr(x, \"copy\"):\n        if getattr(x, \"nbytes\", 0) < 2**27:\n            x = x.copy()\n", expect="from_array")
+V("c10-layer-single-block-no-copy", "C10", "R10.3", "dask_array/io/_from_array.py",
+  "                dsk = {(self._name,) + (0,) * self.array.ndim: self.array.copy()}", "                dsk = {(self._name,) + (0,) * self.array.ndim: self.array}", expect="FromArray._layer")
+V("c10-accept-slice-view", "C10", "R10.3", "dask_array/io/_from_array.py",
+  "                source = source[new_region].copy()", "                source = source[new_region]", expect="FromArray._accept_slice")
+V("c10-finalize-no-copy", "C10", "R10.3", "dask_array/_core_utils.py",
+  "        return results.copy()  # numpy, sparse, scipy.sparse (any version)", "        return results", expect="finalize")
+V("c10-twin-copy-via-np-array", "C10", "-", "dask_array/core/_conversion.py",
+  "    if is_arraylike(x) and hasattr(x, \"copy\"):\n        x = x.copy()\n", "    if is_arraylike(x) and hasattr(x, \"copy\"):\n        # detach from the caller's buffer\n        x = x.copy()\n", twin=True)
